@@ -123,20 +123,7 @@ func (ex *Exec) sliceSeq(st *State, s *Term, elem types.Type) *Term {
 	if off.Op == "int" && off.Int.Sign() == 0 {
 		return b
 	}
-	// shifted view as an uninterpreted function with one global axiom per element sort (well-scoped also when
-	// the slice term mentions quantified variables)
-	f := p.Func("shiftArr:"+ex.tm.SortOf(elem).String(), []*Sort{b.Sort, IntSort}, b.Sort)
-	akey := "shift-axiom:" + b.Sort.String()
-	if !ex.shiftAxiomDone[akey] {
-		ex.shiftAxiomDone[akey] = true
-		bb := p.BoundVar("b", b.Sort)
-		oo := p.BoundVar("o", IntSort)
-		ii := p.BoundVar("i", IntSort)
-		sel := p.Select(p.App(f, bb, oo), ii)
-		ex.facts = append(ex.facts, p.Forall([]*Term{bb, oo, ii}, p.Eq(sel, p.Select(bb, p.Add(oo, ii))), []*Term{sel}))
-	}
-	sh := p.App(f, b, off)
-	return sh
+	return ex.shiftView(b, off)
 }
 
 func (ex *Exec) sliceOp(st *State, in *ssa.Slice, pos string) Val {
@@ -826,6 +813,10 @@ func (ex *Exec) contractCall(fr *frame, st *State, c *FuncContract, name string,
 	}
 	p := ex.p
 	c.Used = true
+	if c.LazySpecs {
+		ex.noExpand++
+		defer func() { ex.noExpand-- }()
+	}
 	if c.Trusted {
 		ex.assumptions["assumed contract: "+name] = true
 	}
@@ -916,6 +907,9 @@ func (ex *Exec) assumeEnsures(ctx *EvalCtx, st, pre *State, c *FuncContract, sig
 	evalAll := func() []*Term {
 		var terms []*Term
 		for _, e := range append(append([]*Clause(nil), c.Ensures...), c.AssumedEnsures...) {
+			if e.Local {
+				continue
+			}
 			t := ex.evalBool(post, e)
 			if ctx.guard != nil {
 				t = p.Implies(ctx.guard, t)
@@ -1356,6 +1350,14 @@ func (ex *Exec) builtin(st *State, b *ssa.Builtin, cc *ssa.CallCommon, args []Va
 		hr := ex.getRegion(st, hn, hs)
 		st.heap[hn] = p.Ite(p.Eq(m, p.Int(0)), hr, p.Store(hr, m, p.Store(p.Select(hr, m), k, p.False())))
 		return TupleV{}
+	case "clear":
+		if mt, ok := cc.Args[0].Type().Underlying().(*types.Map); ok {
+			m := args[0].(*Term)
+			_, hn, _, hs := ex.mapRegions(st, mt)
+			hr := ex.getRegion(st, hn, hs)
+			st.heap[hn] = p.Ite(p.Eq(m, p.Int(0)), hr, p.Store(hr, m, p.ConstArray(hs.Elem, p.False())))
+			return TupleV{}
+		}
 	}
 	ex.fail("unsupported builtin %s at %s", b.Name(), pos)
 	return nil
